@@ -1,6 +1,7 @@
 package main
 
 import (
+	"encoding/json"
 	"path/filepath"
 	"flag"
 	"fmt"
@@ -170,6 +171,7 @@ func cmdRAC(args []string) {
 	seed := fs.Int64("seed", 1, "seed")
 	sed := fs.String("sed", "", "mutation: file:::old:::new")
 	show := fs.Bool("src", false, "print harness source")
+	asJSON := fs.Bool("json", false, "write /verif/work/rac_last.json")
 	fs.Parse(args)
 	if *sed != "" {
 		parts := strings.SplitN(*sed, ":::", 3)
@@ -189,6 +191,10 @@ func cmdRAC(args []string) {
 		}
 		r := p.runRAC(k, *tier, *capN, *seed, nil, "/verif/work/rac", 600)
 		fmt.Printf("%s: cases=%d pre=%d fails=%d total=%d exhaustive=%v %.1fs err=%s\n", k, r.Cases, r.PreOK, r.Fails, r.Total, r.Exhaustive, r.WallS, r.Error)
+		if *asJSON {
+			data, _ := json.MarshalIndent(r, "", " ")
+			os.WriteFile("/verif/work/rac_last.json", data, 0o644)
+		}
 		for i, f := range r.Failures {
 			if i < 5 {
 				fmt.Printf("   FAIL %s  %v\n", f.What, f.Inputs)
